@@ -319,6 +319,13 @@ def h_settings_header_of(I, fi, args, kwargs, node):
     return SymStr('bytes', b64e(body))
 
 
+@hook('spec.specfns.hdr_has_method')
+def h_spec_has_method(I, fi, args, kwargs, node):
+    if not is_hdr(I, args[0]):
+        return NotImplemented
+    return z3.Not(hl_method_none(I.heap.get(args[0]).fields['t']))
+
+
 @hook('spec.specfns.hdr_is_informational')
 def h_spec_is_info(I, fi, args, kwargs, node):
     if not is_hdr(I, args[0]):
